@@ -3608,6 +3608,9 @@ func (m *Machine) Fork(ctx context.Context, e *Event, fn func()) {
 
 // Go is a syntax sugar method for a nested handler unblocking boilerplate.
 func (m *Machine) Go(ctx context.Context, fn func()) {
+	if ctx == nil {
+		ctx = m.ctx
+	}
 	go func() {
 		// in debug, log location of [fn]
 		var caller string
@@ -3641,6 +3644,9 @@ func funcName(fn func()) string {
 
 // GoAfter is like [Go], but with a delay.
 func (m *Machine) GoAfter(ctx context.Context, delay time.Duration, fn func()) {
+	if ctx == nil {
+		ctx = m.ctx
+	}
 	go func() {
 		if ctx.Err() != nil {
 			return // expired
